@@ -23,6 +23,7 @@ type cop struct {
 	Bound  string // Loop: canonical bound ("len(Outputs)", "var:count", "rest")
 	Arg    string // V/F: canonical value expression on the writer side / target on the reader side
 	Cond   string // Alt: canonical branch condition
+	Swapped bool  // Alt: the non-empty side A is the else-branch of the source `if`
 	Var    string // reader: V = identity of the variable the count was read into; Loop = identity of the variable bounding it ("expr" if not a plain variable)
 }
 
@@ -96,6 +97,7 @@ func (w *codecWalker) inlineNewHelper(ce *ast.CallExpr, callee *types.Func) ([]c
 	for k, v := range w.paramVar {
 		pv[k] = v
 	}
+	pa := map[types.Object]string{}
 	i := 0
 	for _, fl := range fd.Type.Params.List {
 		names := fl.Names
@@ -110,12 +112,18 @@ func (w *codecWalker) inlineNewHelper(ce *ast.CallExpr, callee *types.Func) ([]c
 						pv[o] = k
 					}
 				}
+				// ... and stand for the caller's expression (a field of the receiver handed to the helper)
+				if o := w.info.Defs[nm]; o != nil && !w.isStream(ce.Args[i]) {
+					if cn := w.canon(ce.Args[i]); cn != "?" && cn != "call" && !strings.HasPrefix(cn, "var:") {
+						pa[o] = cn
+					}
+				}
 			}
 			i++
 		}
 	}
 	codecHelperBusy[callee] = true
-	sub := extractCodecWith(w.pkg, fd, w.fn.Writer, pv)
+	sub := extractCodecWith(w.pkg, fd, w.fn.Writer, pv, pa)
 	delete(codecHelperBusy, callee)
 	if len(sub.Undecided) > 0 {
 		w.fn.Undecided = append(w.fn.Undecided, sub.Undecided...)
@@ -208,13 +216,16 @@ func isStreamType(t types.Type) bool {
 
 // extractCodec builds the grammar of one function.
 func extractCodec(p *packages.Package, fd *ast.FuncDecl, writer bool) *codecFn {
-	return extractCodecWith(p, fd, writer, nil)
+	return extractCodecWith(p, fd, writer, nil, nil)
 }
 
 // extractCodecWith: paramVar gives helper parameters the identity of the caller's variables.
-func extractCodecWith(p *packages.Package, fd *ast.FuncDecl, writer bool, paramVar map[types.Object]string) *codecFn {
+func extractCodecWith(p *packages.Package, fd *ast.FuncDecl, writer bool, paramVar map[types.Object]string, paramAlias map[types.Object]string) *codecFn {
 	w := &codecWalker{pkg: p, info: p.TypesInfo, streams: map[types.Object]bool{}, seenFld: map[string]bool{}, aliases: map[types.Object]string{}, locals: map[types.Object]ast.Expr{}, busy: map[types.Object]bool{}, paramVar: paramVar}
 	w.fn = &codecFn{Name: fd.Name.Name, Writer: writer, Pos: fd.Pos()}
+	for o, a := range paramAlias {
+		w.aliases[o] = a
+	}
 	if fd.Recv != nil && len(fd.Recv.List) > 0 && len(fd.Recv.List[0].Names) > 0 {
 		w.recv = w.info.Defs[fd.Recv.List[0].Names[0]]
 	}
@@ -896,6 +907,20 @@ func (w *codecWalker) stmtOps(s ast.Stmt) []cop {
 			ops[0].Var = w.varKey(as.Lhs[0])
 		}
 	}
+	if ds, ok := s.(*ast.DeclStmt); ok && (w.fn.Writer || len(ops) == 0) {
+		// `var x T = expr` is `x := expr` (the form helper expansion uses to bind arguments)
+		if gd, ok := ds.Decl.(*ast.GenDecl); ok && gd.Tok == token.VAR {
+			for _, sp := range gd.Specs {
+				if vs, ok := sp.(*ast.ValueSpec); ok && len(vs.Names) == len(vs.Values) {
+					for i, nm := range vs.Names {
+						if o := w.info.Defs[nm]; o != nil {
+							w.locals[o] = vs.Values[i]
+						}
+					}
+				}
+			}
+		}
+	}
 	if as, ok := s.(*ast.AssignStmt); ok && (w.fn.Writer || (len(ops) == 0 && len(as.Lhs) == 1)) && as.Tok == token.DEFINE && len(as.Rhs) == 1 {
 		// a local computed from receiver fields (without reading the stream) stands for those fields
 		// when used later: `n := len(m.X)`
@@ -913,7 +938,24 @@ func (w *codecWalker) stmtOps(s ast.Stmt) []cop {
 			}
 			// `m.X = make(T, count)` makes len(X) an alias of count
 			if len(as.Lhs) == 1 && len(as.Rhs) == 1 {
-				if ce, ok := ast.Unparen(as.Rhs[0]).(*ast.CallExpr); ok {
+				rhs := ast.Unparen(as.Rhs[0])
+				// `x := make(T, count); m.X = x`: the field is the slice made for the local, and the local
+				// stands for the field from here on
+				if rid, ok := rhs.(*ast.Ident); ok {
+					if _, isSel := ast.Unparen(as.Lhs[0]).(*ast.SelectorExpr); isSel {
+						if o := w.info.Uses[rid]; o != nil {
+							if def, has := w.locals[o]; has {
+								if dce, ok := ast.Unparen(def).(*ast.CallExpr); ok {
+									if id, ok := dce.Fun.(*ast.Ident); ok && id.Name == "make" && len(dce.Args) >= 2 {
+										rhs = dce
+										w.aliases[o] = w.canon(as.Lhs[0])
+									}
+								}
+							}
+						}
+					}
+				}
+				if ce, ok := rhs.(*ast.CallExpr); ok {
 					if id, ok := ce.Fun.(*ast.Ident); ok && id.Name == "make" && len(ce.Args) >= 2 {
 						if w.madeLen == nil {
 							w.madeLen = map[string]string{}
@@ -962,17 +1004,26 @@ func (w *codecWalker) stmtOps(s ast.Stmt) []cop {
 func factorAlt(a, b []cop, pos token.Pos) []cop {
 	var out []cop
 	for len(a) > 0 && len(b) > 0 && a[0].String() == b[0].String() {
-		out = append(out, a[0])
+		o := a[0]
+		if o.Kind == "F" && o.Typ == "bool" && a[0].Arg != b[0].Arg {
+			// a flag written as a literal in both branches: remember which literal the then-branch wrote
+			if (a[0].Arg == "var:true" && b[0].Arg == "var:false") || (a[0].Arg == "var:false" && b[0].Arg == "var:true") {
+				o.Arg = "then:" + a[0].Arg
+			}
+		}
+		out = append(out, o)
 		a, b = a[1:], b[1:]
 	}
 	if len(a) == 0 && len(b) == 0 {
 		return out
 	}
 	// canonical orientation: the empty side second
+	swapped := false
 	if len(a) == 0 {
 		a, b = b, a
+		swapped = true
 	}
-	return append(out, cop{Kind: "Alt", A: a, B: b, Pos: pos})
+	return append(out, cop{Kind: "Alt", A: a, B: b, Pos: pos, Swapped: swapped})
 }
 
 // withCond records the canonical branch condition on the Alt produced by factorAlt.
